@@ -70,32 +70,59 @@ def closestEncloserFromNSEC (q : Name) (r : Nsec) : Name :=
 
 def typesSet (bitmap : List Nat) (ts : List Nat) : Bool := bitmap.any fun t => ts.contains t
 
+/-- `aggressiveDelegationBitmap`: NS set, SOA clear. -/
+def aggressiveDelegationBitmap (b : List Nat) : Bool := typesSet b [tNS] && !typesSet b [tSOA]
+
+/-- `dnssec.nsecMisusedFor` (RFC 6840 §4.1): the record's owner is a proper
+ancestor of `name` and it is an ancestor-delegation NSEC or carries DNAME. -/
+def nsecMisusedFor (r : Nsec) (name : Name) : Bool :=
+  isStrictSub name r.owner && (aggressiveDelegationBitmap r.types || typesSet r.types [tDNAME])
+
+/-- `dnssec.nsecProvesENT`: the next name lies strictly below `name`. -/
+def nsecProvesENT (r : Nsec) (name : Name) : Bool := isStrictSub r.next name
+
 /-- `dnssec.VerifyNameErrorNSEC` (no DNAME in the answer section). -/
 def verifyNameErrorNSEC (q : Name) (s : List Nsec) : Except Err Unit :=
   if s.isEmpty then .error .missing else
   match s.find? fun r => nsecCovers r.owner r.next q with
   | none => .error .missing
   | some c =>
+    if nsecMisusedFor c q then .error .badDelegation
+    else if nsecProvesENT c q then .error .missing
+    else
     let ce := closestEncloserFromNSEC q c
     if ce = [] then .ok ()
-    else if s.any fun r => nsecCovers r.owner r.next (ce ++ [star]) then .ok ()
-    else .error .missing
+    else match s.find? fun r => nsecCovers r.owner r.next (ce ++ [star]) with
+      | none => .error .missing
+      | some w =>
+        if nsecMisusedFor w (ce ++ [star]) then .error .badDelegation
+        else if nsecProvesENT w (ce ++ [star]) then .error .missing
+        else .ok ()
 
-/-- the bitmap test shared by both NODATA branches of `VerifyNODATANSEC`. -/
+/-- the bitmap test of the wildcard NODATA branch of `VerifyNODATANSEC`. -/
 def nodataBitmap (t : Nat) (bitmap : List Nat) : Except Err Unit :=
   if typesSet bitmap [t, tCNAME] then .error .typeExists
   else if t = tDS && typesSet bitmap [tSOA] then .error .badDelegation
+  else .ok ()
+
+/-- the bitmap test of the exact-owner branch: additionally, a delegation
+point's record (NS set, SOA clear) denies DS only. -/
+def nodataBitmapExact (t : Nat) (bitmap : List Nat) : Except Err Unit :=
+  if typesSet bitmap [t, tCNAME] then .error .typeExists
+  else if t = tDS && typesSet bitmap [tSOA] then .error .badDelegation
+  else if t ≠ tDS && aggressiveDelegationBitmap bitmap then .error .badDelegation
   else .ok ()
 
 /-- `dnssec.VerifyNODATANSEC`. -/
 def verifyNODATANSEC (q : Name) (t : Nat) (s : List Nsec) : Except Err Unit :=
   if s.isEmpty then .error .missing else
   match s.find? fun r => r.owner == q with
-  | some r => nodataBitmap t r.types
+  | some r => nodataBitmapExact t r.types
   | none =>
     match s.find? fun r => nsecCovers r.owner r.next q with
     | none => .error .missing
     | some c =>
+      if nsecMisusedFor c q then .error .badDelegation else
       let w := closestEncloserFromNSEC q c ++ [star]
       match s.find? fun r => r.owner == w with
       | some r => nodataBitmap t r.types
@@ -122,9 +149,6 @@ deriving Repr, DecidableEq
 /-- `aggressiveNODATAType`: the meta / pseudo types never synthesise NODATA. -/
 def nodataExceptions : List Nat := [0, 41, 249, 250, 251, 252, 253, 254, 255]
 def aggressiveNODATAType (t : Nat) : Bool := !nodataExceptions.contains t
-
-/-- `aggressiveDelegationBitmap`. -/
-def aggressiveDelegationBitmap (b : List Nat) : Bool := typesSet b [tNS] && !typesSet b [tSOA]
 
 /-- `validateAggressiveExactNODATA`. -/
 def validateAggressiveExactNODATA (t : Nat) (b : List Nat) : Except Err Unit :=
